@@ -52,7 +52,16 @@ Constructs == <<
   C("oror",       "a || b",           "a or b", FALSE, FALSE),
   C("andor",      "a && b || c and d","a and b or c and d", FALSE, FALSE),
   C("orand",      "a or b && c || d", "a or b and c or d", FALSE, FALSE),
-  C("notand",     "not a && b",       "not a and b", FALSE, FALSE)
+  C("notand",     "not a && b",       "not a and b", FALSE, FALSE),
+  \* a subprocess spread over two lines: the second word starts in the column where the first one ended for some contexts
+  C("capml0",     "$(ls\n-l)",                "__xonsh__.subproc_captured('ls', '-l')", FALSE, TRUE),
+  C("capml4",     "$(ls\n    -l)",            "__xonsh__.subproc_captured('ls', '-l')", FALSE, TRUE),
+  C("capml5",     "$(ls\n     -l)",           "__xonsh__.subproc_captured('ls', '-l')", FALSE, TRUE),
+  C("capml6",     "$(ls\n      -l)",          "__xonsh__.subproc_captured('ls', '-l')", FALSE, TRUE),
+  C("capml8",     "$(ls\n        -l)",        "__xonsh__.subproc_captured('ls', '-l')", FALSE, TRUE),
+  C("capml9",     "$(ls\n         -l)",       "__xonsh__.subproc_captured('ls', '-l')", FALSE, TRUE),
+  C("hidml",      "![ls -l\n      x]",        "__xonsh__.subproc_captured_hiddenobject('ls', '-l', 'x')", FALSE, TRUE),
+  C("capcont",    "$(ls \\\n   -l)",          "__xonsh__.subproc_captured('ls', '-l')", FALSE, TRUE)
 >>
 
 \* pure Python context: same text on both sides
@@ -117,6 +126,12 @@ Contexts == <<
   P("strconcat", "'s' + ", "", "eval", "expr"),
   P("fstrfield", "f'{ ", " }'", "eval", "expr"),
   P("fstrfield2", "f'a{ ", " !r:>4}b'", "eval", "expr"),
+  \* something with a backtick / a dollar / a bang later on the same line
+  X("thensearch", "f(", ", `z*`)", "f(", ", __xonsh__.pathsearch('`z*`'))"),
+  X("searchthen", "[`y`, ", "]", "[__xonsh__.pathsearch('`y`'), ", "]"),
+  P("thenbtstr", "g(", ", 'a`b', \"$c\")", "eval", "expr"),
+  P("thenbtcomment", "(", ")  # `c` $(d) !e", "eval", "expr"),
+  X("thenenv", "(", ", $X, ${'Y'})", "(", ", __xonsh__.env['X'], __xonsh__.env[str('Y')])"),
   X("envexprinner", "${", "}", "__xonsh__.env[str(", ")]"),
   X("pyinproc", "$(echo @(", "))", "__xonsh__.subproc_captured('echo', *__xonsh__.list_of_strs_or_callables(", "))"),
   X("pyinproc2", "![echo a @(", ") b]", "__xonsh__.subproc_captured_hiddenobject('echo', 'a', *__xonsh__.list_of_strs_or_callables(", "), 'b')"),
